@@ -57,7 +57,7 @@ class Family:
 
     def pool(self, c, sd): raise NotImplementedError
     def add_recorded(self, pool, events): pass
-    def plan(self, pool, rng, scale): raise NotImplementedError      # -> [(block name, [cases])]
+    def plan(self, pool, rng, scale, wide=False): raise NotImplementedError      # -> [(block name, [cases])]; wide: the two-goroutine configuration
 
     def verdict(self, t):
         """MISMATCH tuple -> signature (hashable) or None when the tuple is not a verdict (statistics, notes)"""
@@ -73,7 +73,7 @@ class F17(Family):
         # DecodeDaylightSavingTime has a three-value domain; the family driver records all of it (cmd/conv17 record)
         return cases + [dict(op="DSTDec", d=v) for v in (0, 1, 2)], res
 
-    def plan(self, pool, rng, scale):
+    def plan(self, pool, rng, scale, wide=False):
         by = {}
         for x in pool: by.setdefault(x["op"] + x.get("kind", ""), []).append(x)
         want = [("T2", 8, lambda x: x["d"] // 700), ("T3", 12, lambda x: x["d"] // 40000), ("AMBR", 16, lambda x: (x["dlu"], x["ulu"])),
@@ -96,7 +96,7 @@ class F12(Family):
     def pool(self, c, sd):
         return _gen(c, sd, "MC_C12_gen", "MC_C12_gen", workers=3, expect_all=False, at_least=15000)
 
-    def plan(self, pool, rng, scale):
+    def plan(self, pool, rng, scale, wide=False):
         by = {}
         for x in pool: by.setdefault(x["fam"], []).append(x)
         want = [("plmn", 10), ("amf", 8), ("badamf", 6), ("guti", 4), ("badguti", 6), ("stmsi", 5), ("suci", 6), ("pei", 5)]
@@ -118,7 +118,7 @@ class F13(Family):
         # LadnToModels inputs with a zero octet need the sequential driver's child process: not run concurrently
         return [x for x in cases if not (x["fam"] == "ladnind" and 0 in x["w"])], res
 
-    def plan(self, pool, rng, scale):
+    def plan(self, pool, rng, scale, wide=False):
         by = {}
         for x in pool: by.setdefault(x["fam"], []).append(x)
         want = [("snssai", 12), ("snssaiwire", 12), ("nssai", 12), ("badnssai", 12), ("rej", 12), ("tai", 16), ("sal", 16), ("ladn", 12), ("ladnind", 12)]
@@ -153,7 +153,7 @@ class F15(Family):
 
     COMPS = [0x01, 0x10, 0x11, 0x30, 0x40, 0x41, 0x50, 0x51, 0x60, 0x70, 0x80, 0x81, 0x82, 0x83, 0x84, 0x85, 0x86, 0x87]
 
-    def plan(self, pool, rng, scale):
+    def plan(self, pool, rng, scale, wide=False):
         comp, par, rnd = {}, {}, {"rules": [], "descs": [], "rbytes": [], "dbytes": []}
         for x in pool:
             if x.get("rec"):
@@ -212,7 +212,7 @@ class F16(Family):
             elif e["op"] == "PsiToBool":
                 pool.append(dict(kind="psi", units=[], cuts=[], data=[], base=e["in"][0][0] + 256 * e["in"][0][1]))
 
-    def plan(self, pool, rng, scale):
+    def plan(self, pool, rng, scale, wide=False):
         by = {}
         for x in pool: by.setdefault(x["kind"] + ("-rand" if x.get("rec") else ""), []).append(x)
 
@@ -245,7 +245,7 @@ class F18(Family):
             elif e["op"] in self.DEC_OPS and 0 < len(e["in"]) <= 80 and not e["hang"]:
                 pool.append(dict(k="dec", jobs=[dict(ops=[e["op"]], base=e["in"], cuts=[len(e["in"])], patches=[])], rec=True))
 
-    def plan(self, pool, rng, scale):
+    def plan(self, pool, rng, scale, wide=False):
         by = {}
         for x in pool: by.setdefault(x["k"] + ("-rand" if x.get("rec") else ""), []).append(x)
         if "build" not in by or "plmn" not in by: raise Infra("C18 generator printed no build / PLMN cases")
@@ -283,7 +283,7 @@ class FSec(Family):
         cases, res = _gen(c, sd, "MC_C06_gen", self.cfg, workers=2, slack=1)
         return cases, res
 
-    def plan(self, pool, rng, scale):
+    def plan(self, pool, rng, scale, wide=False):
         by = {}
         for x in pool:
             if x["nbits"] <= 320: by.setdefault((x["op"], x["alg"]), []).append(x)
@@ -313,8 +313,68 @@ class FSec(Family):
         return (t[2], t[5]) if len(t) > 5 else tuple(t[2:])
 
 
-def families(with_sec=True):
+# ------------------------------------------------------------------ C09 IE field accessors
+class F09(Family):
+    name, pid, trace, shards, driver = "f09", "C09", "Trace_C09", 4, "ietypes"
+
+    def pool(self, c, sd):
+        # the family's generator configuration with the run's seed (as its own check sets it), under a private name
+        cfg = open(os.path.join(sd, "MC_C09_gen.cfg")).read()
+        import re
+        cfg2 = re.sub(r"\bSeed = \w+", "Seed = %d" % (c.seed % 1000), cfg)
+        with open(os.path.join(sd, "MC_C19_gen09.cfg"), "w") as fh: fh.write(cfg2)
+        res = c.tlc(sd, "MC_C09_gen", "MC_C19_gen09", workers=2, timeout=900)
+        if not res.clean:
+            raise Infra("case generator MC_C09_gen failed:\n" + res.out[-2000:])
+        cases = []
+        for ln in res.printed:
+            if not ln.startswith('"{'): continue
+            o = json.loads(json.loads(ln))
+            if "overlap" in o: continue
+            o["groups"].sort(key=lambda g: g["L"])
+            cases.append(o)
+        if len(cases) < 500: raise Infra("MC_C09_gen printed %d fields only" % len(cases))
+        cases.sort(key=lambda o: (o["ti"], o["fi"]))
+        return cases, res
+
+    def plan(self, pool, rng, scale, wide=False):
+        by = {}
+        for x in pool: by.setdefault(x["kind"], []).append(x)
+        blocks = []
+        for kind, n in (("bits", 8), ("iei", 2), ("len", 2), ("slice", 2), ("array", 2)):
+            if kind not in by: continue
+            out = []
+            # wide (two goroutines, many rounds): EVERY accessor pair of the table, one prior and two values each, so that an
+            # unsynchronised package-level access inside any single accessor is in front of the race detector in every run;
+            # otherwise a seeded sample of pairs, each twice with different priors and values
+            for x in (by[kind] if wide else _pick(rng, by[kind], n * scale, lambda x: x["type"])):
+                for _ in range(1 if wide else 2):
+                    g = rng.choice(x["groups"])
+                    out.append(dict(x, groups=[dict(L=g["L"], priors=_pick(rng, g["priors"], 1 if wide else 3), values=_pick(rng, g["values"], 2 if wide else 3))]))
+            rng.shuffle(out)
+            blocks.append((kind, out))
+        if not blocks: raise Infra("MC_C09_gen printed no usable field")
+        return blocks
+
+    def verdict(self, t):
+        if t[2] == "badevent":
+            raise Infra("Trace_C09 could not interpret an event (table / driver plumbing): %r" % (t,))
+        return ("Set", t[2])
+
+    @staticmethod
+    def registry(pkg):
+        """constructor registry generated from the list of type names (plumbing, as in the C09 check)"""
+        tab = json.load(open(os.path.join(VERIF, "tables", "ie_fields.json")))
+        L = ['// generated at check time from tables/ie_fields.json (type names only): plumbing'] + (['//go:build c19ie', ''] if pkg != "main" else []) + \
+            ['package ' + pkg, '', 'import "github.com/free5gc/nas/nasType"', '', 'var Types = map[string]func() any{']
+        L += ['\t"%s": func() any { return &nasType.%s{} },' % (t["type"], t["type"]) for t in tab["types"]]
+        return "\n".join(L + ['}']) + "\n"
+
+
+def families(with_sec=True, with_ie=True):
     fs = [F17(), F12(), F13(), F15(), F16(), F18()]
     if with_sec:
         fs += [FSec("f06", "C06", "Trace_C06", "MC_C06_gen"), FSec("f07", "C07", "Trace_C07", "MC_C07_gen")]
+    if with_ie:
+        fs += [F09()]
     return fs
